@@ -2,8 +2,185 @@
    through every primitive of Queues.v / Timers.v, in right-extension form.  No invariant needed: every lemma holds for
    every db value. *)
 From Coq Require Import String ZifyN ZifyBool ZifyNat.
-From Slock Require Import Engine.Types Engine.Queues Engine.Timers Engine.Engine Engine.Engine2 Engine.LocalBase.
+From Slock Require Import Engine.Types Engine.Queues Engine.Timers Engine.Engine Engine.Engine2.
 Open Scope N_scope.
+
+(* ================================================================== toolkit (self-contained copy of the generic part
+   of Engine/LocalBase.v: case-splitting tactics, projections through the primitive updates, event classes) *)
+(* ------------------------------------------------------------------ tactics *)
+(* innermost scrutinee along the head of a term *)
+Ltac hd_scrut t :=
+  lazymatch t with
+  | match ?x with _ => _ end => hd_scrut x
+  | _ => constr:(t)
+  end.
+
+(* H : (match .. end) = rhs  --- split on the head scrutinee, reduce *)
+Ltac split_hyp H :=
+  lazymatch type of H with
+  | ?lhs = _ =>
+      lazymatch lhs with
+      | match ?x with _ => _ end =>
+          let y := hd_scrut x in
+          (is_var y; destruct y) || destruct y eqn:?
+      end
+  end; cbv beta iota zeta in H.
+
+Ltac inv H := inversion H; subst; clear H.
+
+Lemma tuple3_inv {A B C} (a a' : A) (b b' : B) (c c' : C) : (a, b, c) = (a', b', c') -> a = a' /\ b = b' /\ c = c'.
+Proof. intros H. inversion H. auto. Qed.
+Lemma tuple2_inv {A B} (a a' : A) (b b' : B) : (a, b) = (a', b') -> a = a' /\ b = b'.
+Proof. intros H. inversion H. auto. Qed.
+
+(* H : (x, y, z) = (x', y', z') with variables on the right: substitute them (cheap, unlike inversion on big terms) *)
+Ltac subst_rhs H :=
+  lazymatch type of H with
+  | _ = ?v => tryif is_var v then (first [subst v | rewrite <- H in *; clear H | idtac]) else idtac
+  end.
+
+Ltac inv_tuple H :=
+  lazymatch type of H with
+  | (_, _, _) = (_, _, _) =>
+      apply tuple3_inv in H;
+      let H1 := fresh in let H2 := fresh in let H3 := fresh in
+      destruct H as (H1 & H2 & H3); subst_rhs H1; subst_rhs H2; subst_rhs H3
+  | (_, _) = (_, _) =>
+      apply tuple2_inv in H;
+      let H1 := fresh in let H2 := fresh in
+      destruct H as (H1 & H2); subst_rhs H1; subst_rhs H2
+  | _ => idtac
+  end.
+
+(* ------------------------------------------------------------------ amap *)
+Lemma adel_absent {V} (m : amap V) k : aget m k = None -> adel m k = m.
+Proof.
+  induction m as [|[k' v] r IH]; simpl; auto.
+  destruct (k' =? k) eqn:E; [discriminate|]. intros H. rewrite IH; auto.
+Qed.
+
+Lemma aget_adel {V} (m : amap V) k k' : aget (adel m k) k' = if k =? k' then None else aget m k'.
+Proof.
+  destruct (k =? k') eqn:E.
+  - apply N.eqb_eq in E. subst. apply aget_adel_same.
+  - apply N.eqb_neq in E. apply aget_adel_other; auto.
+Qed.
+
+Lemma aget_aset {V} (m : amap V) k k' v : aget (aset m k v) k' = if k =? k' then Some v else aget m k'.
+Proof.
+  destruct (k =? k') eqn:E.
+  - apply N.eqb_eq in E. subst. apply aget_aset_same.
+  - apply N.eqb_neq in E. apply aget_aset_other; auto.
+Qed.
+
+(* ------------------------------------------------------------------ projections through primitive updates *)
+Lemma mgrs_setl s r l : mgrs (setl s r l) = mgrs s. Proof. reflexivity. Qed.
+Lemma mgrs_updl s r f : mgrs (updl s r f) = mgrs s. Proof. unfold updl. destruct (aget (store s) r); reflexivity. Qed.
+Lemma store_setm s k m : store (setm s k m) = store s. Proof. reflexivity. Qed.
+Lemma store_updm s k f : store (updm s k f) = store s. Proof. unfold updm. destruct (aget (mgrs s) k); reflexivity. Qed.
+Lemma mgrs_updc s f : mgrs (updc s f) = mgrs s. Proof. reflexivity. Qed.
+Lemma store_updc s f : store (updc s f) = store s. Proof. reflexivity. Qed.
+
+Lemma getm_mgrs s s' k : mgrs s' = mgrs s -> getm s' k = getm s k.
+Proof. unfold getm. intros ->. reflexivity. Qed.
+Lemma getl_store s s' r : store s' = store s -> getl s' r = getl s r.
+Proof. unfold getl. intros ->. reflexivity. Qed.
+
+Lemma getl_updm s k f r : getl (updm s k f) r = getl s r.
+Proof. apply getl_store, store_updm. Qed.
+Lemma getm_updl s r f k : getm (updl s r f) k = getm s k.
+Proof. apply getm_mgrs, mgrs_updl. Qed.
+Lemma getm_setl s r l k : getm (setl s r l) k = getm s k.
+Proof. reflexivity. Qed.
+Lemma getl_updc s f r : getl (updc s f) r = getl s r. Proof. reflexivity. Qed.
+Lemma getm_updc s f k : getm (updc s f) k = getm s k. Proof. reflexivity. Qed.
+
+Lemma aget_store_updl s r f r' :
+  aget (store (updl s r f)) r' =
+  if r =? r' then option_map f (aget (store s) r) else aget (store s) r'.
+Proof.
+  unfold updl. destruct (aget (store s) r) eqn:E.
+  - change (store (setl s r (f l))) with (aset (store s) r (f l)).
+    rewrite aget_aset. destruct (r =? r'); reflexivity.
+  - destruct (r =? r') eqn:E2; [apply N.eqb_eq in E2; subst; rewrite E|]; reflexivity.
+Qed.
+
+Lemma getl_updl s r f r' :
+  getl (updl s r f) r' = if (r =? r') then (match aget (store s) r with Some l => f l | None => dummy_lock end) else getl s r'.
+Proof.
+  unfold getl at 1. rewrite aget_store_updl. destruct (r =? r') eqn:E; [|reflexivity].
+  destruct (aget (store s) r); reflexivity.
+Qed.
+
+Lemma aget_mgrs_updm s k f k' :
+  aget (mgrs (updm s k f)) k' = if k =? k' then option_map f (aget (mgrs s) k) else aget (mgrs s) k'.
+Proof.
+  unfold updm. destruct (aget (mgrs s) k) eqn:E.
+  - change (mgrs (setm s k (f m))) with (aset (mgrs s) k (f m)).
+    rewrite aget_aset. destruct (k =? k'); reflexivity.
+  - destruct (k =? k') eqn:E2; [apply N.eqb_eq in E2; subst; rewrite E|]; reflexivity.
+Qed.
+
+Lemma leader_updl s r f : leader (updl s r f) = leader s. Proof. unfold updl. destruct aget; reflexivity. Qed.
+Lemma leader_updm s k f : leader (updm s k f) = leader s. Proof. unfold updm. destruct aget; reflexivity. Qed.
+Lemma now_updl s r f : now (updl s r f) = now s. Proof. unfold updl. destruct aget; reflexivity. Qed.
+Lemma now_updm s k f : now (updm s k f) = now s. Proof. unfold updm. destruct aget; reflexivity. Qed.
+
+(* ------------------------------------------------------------------ event classes *)
+Definition is_reply (e : event) : Prop := match e with EReply _ _ _ _ _ _ _ _ _ => True | _ => False end.
+(* events the low-level helpers may emit *)
+Definition quiet (e : event) : Prop := match e with EAof _ | EPanic _ => True | _ => False end.
+Definition only_aof (evs : list event) : Prop := Forall (fun e => match e with EAof _ => True | _ => False end) evs.
+(* no new holder *)
+Definition nng (e : event) : Prop := match e with EGrant _ _ true _ _ _ => False | _ => True end.
+
+Definition quiet_ok (P : event -> Prop) : Prop := forall e, quiet e -> P e.
+Lemma quiet_ok_nng : quiet_ok nng. Proof. intros [] H; simpl in *; auto; contradiction. Qed.
+Lemma quiet_ok_quiet : quiet_ok quiet. Proof. intros e H; exact H. Qed.
+
+Lemma Forall_quiet P evs : quiet_ok P -> Forall quiet evs -> Forall P evs.
+Proof. intros HP H. eapply Forall_impl; [|exact H]. exact HP. Qed.
+
+Lemma only_aof_quiet evs : only_aof evs -> Forall quiet evs.
+Proof. intros H. eapply Forall_impl; [|exact H]. intros []; simpl; auto. Qed.
+
+Lemma push_lock_aof_only_aof s k r f s' ev : push_lock_aof s k r f = (s', ev) -> only_aof ev.
+Proof.
+  unfold push_lock_aof, only_aof. intros H.
+  repeat (split_hyp H); inv H; repeat constructor.
+Qed.
+
+Lemma push_unlock_aof_only_aof s k r lc uc b f s' ev : push_unlock_aof s k r lc uc b f = (s', ev) -> only_aof ev.
+Proof.
+  unfold push_unlock_aof, only_aof. intros H.
+  repeat (split_hyp H); inv H; repeat constructor.
+Qed.
+
+Lemma repeat_push_lock_aof_only_aof n : forall s k r s' ev, repeat_push_lock_aof n s k r = (s', ev) -> only_aof ev.
+Proof.
+  induction n as [|n IH]; simpl; intros s k r s' ev H.
+  - inv H. constructor.
+  - destruct (push_lock_aof s k r 0) as [s1 e1] eqn:E1.
+    destruct (repeat_push_lock_aof n s1 k r) as [s2 e2] eqn:E2. inv H.
+    apply Forall_app. split; [eapply push_lock_aof_only_aof; eauto | eapply IH; eauto].
+Qed.
+
+Lemma add_expried_only_aof s k r s' ev : add_expried s k r = (s', ev) -> only_aof ev.
+Proof.
+  unfold add_expried. intros H.
+  match type of H with (if ?c then _ else _) = _ => destruct c end.
+  - eapply repeat_push_lock_aof_only_aof; eauto.
+  - inv H. constructor.
+Qed.
+
+Lemma process_data_quiet s k r c b s' ev : process_data s k r c b = (s', ev) -> Forall quiet ev.
+Proof.
+  unfold process_data. intros H.
+  repeat (split_hyp H); inv H; repeat constructor.
+Qed.
+
+
+(* ================================================================== C11 frames *)
 
 (* ------------------------------------------------------------------ tactics *)
 (* destruct the innermost scrutinee of some match in the goal *)
@@ -32,28 +209,29 @@ Definition mview (m : mgr) := (m_locked m, dval (m_data m)).
 (* every manager that is still there has the hold counter and the value it had *)
 Definition mlocked_le (s s' : db) : Prop :=
   forall k m', aget (mgrs s') k = Some m' -> exists m, aget (mgrs s) k = Some m /\ mview m' = mview m.
-Definition fr (s s' : db) : Prop := ack_le s s' /\ mlocked_le s s'.
+Definition fr (s s' : db) : Prop := ack_le s s' /\ mlocked_le s s' /\ leader s' = leader s.
 
 Lemma fr_refl s : fr s s.
-Proof. split; [intros r; apply lrec_le_refl | intros k m H; eauto]. Qed.
+Proof. split; [intros r; apply lrec_le_refl | split; [intros k m H; eauto|reflexivity]]. Qed.
 Lemma fr_trans s1 s2 s3 : fr s1 s2 -> fr s2 s3 -> fr s1 s3.
 Proof.
-  intros [A1 M1] [A2 M2]. split.
+  intros (A1 & M1 & L1) (A2 & M2 & L2). split; [|split].
   - intros r. eapply lrec_le_trans; [apply A1|apply A2].
   - intros k m3 H. destruct (M2 _ _ H) as (m2 & H2 & E2). destruct (M1 _ _ H2) as (m1 & H1 & E1).
     exists m1. split; auto. congruence.
+  - congruence.
 Qed.
 
-Lemma fr_same s s' : store s' = store s -> mgrs s' = mgrs s -> fr s s'.
+Lemma fr_same s s' : store s' = store s -> mgrs s' = mgrs s -> leader s' = leader s -> fr s s'.
 Proof.
-  intros Hs Hm. split.
+  intros Hs Hm Hl. split; [|split; [|exact Hl]].
   - intros r. rewrite (getl_store _ _ r Hs). apply lrec_le_refl.
   - intros k m H. rewrite Hm in H. eauto.
 Qed.
 
 Lemma fr_updl s r f : (forall l, lrec_le l (f l)) -> fr s (updl s r f).
 Proof.
-  intros Hf. split.
+  intros Hf. split; [|split; [|apply leader_updl]].
   - intros r'. rewrite getl_updl. destruct (r =? r') eqn:E; [|apply lrec_le_refl].
     apply N.eqb_eq in E. subst r'. unfold getl. destruct (aget (store s) r); [apply Hf|apply lrec_le_refl].
   - intros k m H. rewrite mgrs_updl in H. eauto.
@@ -61,7 +239,7 @@ Qed.
 
 Lemma fr_updm_at s k f : (forall m, aget (mgrs s) k = Some m -> mview (f m) = mview m) -> fr s (updm s k f).
 Proof.
-  intros Hf. split.
+  intros Hf. split; [|split; [|apply leader_updm]].
   - intros r. rewrite getl_updm. apply lrec_le_refl.
   - intros k' m' H. rewrite aget_mgrs_updm in H. destruct (k =? k') eqn:E; [|eauto].
     apply N.eqb_eq in E. subst k'. destruct (aget (mgrs s) k) eqn:E2; simpl in H; [|discriminate].
@@ -72,7 +250,7 @@ Proof. intros Hf. apply fr_updm_at. auto. Qed.
 
 Lemma fr_del_store s r : fr s (s <| store := adel (store s) r |>).
 Proof.
-  split.
+  split; [|split; [|reflexivity]].
   - intros r'. unfold getl. change (store (s <| store := adel (store s) r |>)) with (adel (store s) r).
     rewrite aget_adel. destruct (r =? r'); [apply lrec_le_dummy|apply lrec_le_refl].
   - intros k m H. cbn in H. eauto.
@@ -80,7 +258,7 @@ Qed.
 
 Lemma fr_del_mgr s k : fr s (s <| mgrs := adel (mgrs s) k |>).
 Proof.
-  split.
+  split; [|split; [|reflexivity]].
   - intros r. apply lrec_le_refl.
   - intros k' m H. cbn in H. rewrite aget_adel in H. destruct (k =? k'); [discriminate|eauto].
 Qed.
@@ -92,7 +270,7 @@ Qed.
 
 Lemma fr_setl_some s r l l' : aget (store s) r = Some l -> lrec_le l l' -> fr s (setl s r l').
 Proof.
-  intros H Hl. split.
+  intros H Hl. split; [|split; [|reflexivity]].
   - intros r'. rewrite getl_setl.
     destruct (r =? r') eqn:E; [|apply lrec_le_refl]. apply N.eqb_eq in E. subst r'. unfold getl at 1. rewrite H. exact Hl.
   - intros k m Hm. change (mgrs (setl s r l')) with (mgrs s) in Hm. eauto.
@@ -101,7 +279,7 @@ Qed.
 (* right-extension forms *)
 Lemma fr_r s0 s s' : fr s s' -> fr s0 s -> fr s0 s'.
 Proof. intros; eapply fr_trans; eauto. Qed.
-Lemma fr_r_same s0 s s' : store s' = store s -> mgrs s' = mgrs s -> fr s0 s -> fr s0 s'.
+Lemma fr_r_same s0 s s' : store s' = store s -> mgrs s' = mgrs s -> leader s' = leader s -> fr s0 s -> fr s0 s'.
 Proof. intros. eapply fr_trans; [eassumption|apply fr_same; auto]. Qed.
 Lemma fr_r_updl s0 s r f : (forall l, lrec_le l (f l)) -> fr s0 s -> fr s0 (updl s r f).
 Proof. intros. eapply fr_trans; [eassumption|apply fr_updl; auto]. Qed.
@@ -120,7 +298,6 @@ Lemma fr_r_elong s0 s x : fr s0 s -> fr s0 (s <| elong := x |>). Proof. intros; 
 Lemma fr_r_checkT s0 s x : fr s0 s -> fr s0 (s <| checkT := x |>). Proof. intros; eapply fr_r_same; eauto. Qed.
 Lemma fr_r_checkE s0 s x : fr s0 s -> fr s0 (s <| checkE := x |>). Proof. intros; eapply fr_r_same; eauto. Qed.
 Lemma fr_r_now s0 s x : fr s0 s -> fr s0 (s <| now := x |>). Proof. intros; eapply fr_r_same; eauto. Qed.
-Lemma fr_r_leader s0 s x : fr s0 s -> fr s0 (s <| leader := x |>). Proof. intros; eapply fr_r_same; eauto. Qed.
 
 (* side conditions of fr_r_updl / fr_r_updm for record updates that do not touch the field *)
 Ltac fr_side := intros ?; first [ apply lrec_le_refl | unfold lrec_le; cbn; auto ].
@@ -131,7 +308,7 @@ Qed.
 #[export] Hint Extern 1 (forall l : lockrec, lrec_le _ _) => fr_side : fr.
 #[export] Hint Extern 1 (forall m : mgr, _ = _) => fr_side : fr.
 #[export] Hint Resolve fr_refl fr_r_updl fr_r_updm fr_r_updc fr_r_bump fr_r_twheel fr_r_tlong fr_r_ewheel fr_r_elong
-  fr_r_checkT fr_r_checkE fr_r_now fr_r_leader : fr.
+  fr_r_checkT fr_r_checkE fr_r_now : fr.
 
 Ltac frs := brk; eauto 30 with fr.
 
